@@ -826,6 +826,35 @@ class Idioms3(ast.NodeTransformer):
                     return ast.fix_missing_locations(ast.copy_location(
                         ast.BoolOp(op=ast.Or() if fn == "any" else ast.And(),
                                    values=vals), node))
+        # itertools.starmap(operator.ne, PAIRS) -> (a != b for a, b in PAIRS)
+        if fn in ("itertools.starmap", "starmap") and len(
+                node.args) == 2 and not node.keywords and isinstance(
+                node.args[0], ast.Attribute) and isinstance(
+                node.args[0].value, ast.Name) and \
+                node.args[0].value.id == "operator":
+            ops2 = {"ne": ast.NotEq, "eq": ast.Eq, "lt": ast.Lt,
+                    "le": ast.LtE, "gt": ast.Gt, "ge": ast.GtE,
+                    "is_": ast.Is, "is_not": ast.IsNot}
+            bin2 = {"add": ast.Add, "sub": ast.Sub, "mul": ast.Mult,
+                    "truediv": ast.Div}
+            a_, b_ = (ast.Name(id="_sm_a", ctx=ast.Load()),
+                      ast.Name(id="_sm_b", ctx=ast.Load()))
+            nm = node.args[0].attr
+            elt = None
+            if nm in ops2:
+                elt = ast.Compare(left=a_, ops=[ops2[nm]()],
+                                  comparators=[b_])
+            elif nm in bin2:
+                elt = ast.BinOp(left=a_, op=bin2[nm](), right=b_)
+            if elt is not None:
+                gen = ast.GeneratorExp(elt=elt, generators=[
+                    ast.comprehension(target=ast.Tuple(elts=[
+                        ast.Name(id="_sm_a", ctx=ast.Store()),
+                        ast.Name(id="_sm_b", ctx=ast.Store())],
+                        ctx=ast.Store()), iter=node.args[1], ifs=[],
+                        is_async=0)])
+                return ast.fix_missing_locations(ast.copy_location(gen,
+                                                                   node))
         # operator.attrgetter("a") -> lambda x: x.a ;
         # operator.itemgetter(k) -> lambda x: x[k]
         if fn in ("operator.attrgetter", "attrgetter") and len(
@@ -2536,6 +2565,17 @@ def generators_to_lists(tree):
                 ok = False
                 break
             up2 = parent.get(id(up))
+            if isinstance(up2, ast.Call) and norm(up2.func) in (
+                    "itertools.starmap", "starmap", "map", "enumerate",
+                    "zip", "itertools.chain") and up in up2.args and \
+                    isinstance(parent.get(id(up2)), ast.Call) and norm(
+                        parent[id(up2)].func) in (
+                        "list", "tuple", "sorted", "set", "any", "all",
+                        "sum", "dict", "max", "min") and \
+                    parent[id(up2)].args and parent[id(up2)].args[0] is up2:
+                # a lazy adaptor that is itself consumed completely
+                calls.append((up, up2))
+                continue
             consumed = (
                 (isinstance(up2, ast.Call) and norm(up2.func) in (
                     "list", "tuple", "sorted", "set", "any", "all", "sum")
@@ -6433,4 +6473,91 @@ def sentinel_branches(tree):
                     ast.fix_missing_locations(a)
                     done = True
                     i -= 1
+    return done
+
+
+def fuse_collect_into_comprehension(fn):
+    """`L = []; for x in IT: [if c:] L.append(E)` directly followed by a
+    statement with the only other use of L, `<comprehension> for T in L`
+    (L generated by the inliner) -> the comprehension over IT with T's
+    names replaced by the fields of E"""
+    done = False
+    for par in [fn] + list(_walk_own(fn)):
+        for fld in ("body", "orelse", "finalbody"):
+            blk = getattr(par, fld, None)
+            if not isinstance(blk, list):
+                continue
+            i = 0
+            while i + 2 < len(blk):
+                a, b, c = blk[i:i + 3]
+                i += 1
+                if not (isinstance(a, ast.Assign) and len(a.targets) == 1
+                        and isinstance(a.targets[0], ast.Name)
+                        and isinstance(a.value, ast.List)
+                        and not a.value.elts
+                        and ("__inl" in a.targets[0].id
+                             or a.targets[0].id.startswith("_items"))
+                        and isinstance(b, ast.For) and not b.orelse
+                        and len(b.body) == 1):
+                    continue
+                L = a.targets[0].id
+                inner, guard = b.body[0], None
+                if isinstance(inner, ast.If) and not inner.orelse and len(
+                        inner.body) == 1:
+                    guard, inner = inner.test, inner.body[0]
+                if not (isinstance(inner, ast.Expr) and isinstance(
+                        inner.value, ast.Call) and isinstance(
+                        inner.value.func, ast.Attribute)
+                        and inner.value.func.attr == "append"
+                        and norm(inner.value.func.value) == L
+                        and len(inner.value.args) == 1):
+                    continue
+                if sum(1 for n in ast.walk(fn) if isinstance(n, ast.Name)
+                       and n.id == L) != 3:
+                    continue
+                E = inner.value.args[0]
+                comp = None
+                for x in ast.walk(c):
+                    if isinstance(x, (ast.GeneratorExp, ast.ListComp,
+                                      ast.SetComp)) and len(
+                            x.generators) == 1 and isinstance(
+                            x.generators[0].iter, ast.Name) and \
+                            x.generators[0].iter.id == L:
+                        comp = x
+                if comp is None or isinstance(c, (ast.For, ast.While)):
+                    continue
+                g = comp.generators[0]
+                if isinstance(g.target, ast.Name):
+                    m = {g.target.id: E}
+                elif isinstance(g.target, ast.Tuple) and isinstance(
+                        E, ast.Tuple) and len(E.elts) == len(
+                        g.target.elts) and all(isinstance(
+                            t, ast.Name) for t in g.target.elts):
+                    m = {t.id: v for t, v in zip(g.target.elts, E.elts)}
+                else:
+                    continue
+                # each field is used at most once (no duplicated evaluation)
+                cnt = {}
+                for n in ast.walk(comp.elt):
+                    if isinstance(n, ast.Name) and n.id in m:
+                        cnt[n.id] = cnt.get(n.id, 0) + 1
+                for c_ in g.ifs:
+                    for n in ast.walk(c_):
+                        if isinstance(n, ast.Name) and n.id in m:
+                            cnt[n.id] = cnt.get(n.id, 0) + 1
+                if any(v > 1 for v in cnt.values()):
+                    continue
+                loopvars = set(target_names(b.target))
+                if loopvars & {n.id for n in ast.walk(comp)
+                               if isinstance(n, ast.Name)}:
+                    continue
+                comp.elt = _SubstNames(m).visit(comp.elt)
+                g.ifs = ([guard] if guard is not None else []) + [
+                    _SubstNames(m).visit(c_) for c_ in g.ifs]
+                g.iter = b.iter
+                g.target = b.target
+                del blk[i - 1:i + 1]
+                ast.fix_missing_locations(c)
+                done = True
+                i = max(0, i - 1)
     return done
